@@ -436,7 +436,7 @@ def m_trim(ctx, args, callee):
 def m_trim_start(ctx, args, callee):
     _s0 = as_str(ctx, args[0])
     if isinstance(_s0, SpecialStr):
-        return _s0.sop(ctx, 'trim', args, callee)
+        return _s0.sop(ctx, 'trim_start', args, callee)
     return lift_str(ctx, lambda a: a.lstrip(), as_str(ctx, args[0]))
 
 
@@ -444,7 +444,7 @@ def m_trim_start(ctx, args, callee):
 def m_trim_end(ctx, args, callee):
     _s0 = as_str(ctx, args[0])
     if isinstance(_s0, SpecialStr):
-        return _s0.sop(ctx, 'trim', args, callee)
+        return _s0.sop(ctx, 'trim_end', args, callee)
     return lift_str(ctx, lambda a: a.rstrip(), as_str(ctx, args[0]))
 
 
@@ -1643,20 +1643,38 @@ def m_iter_peek(ctx, args, callee):
     return none() if x is None else some(Ref(Cell(x)))
 
 
+def _clamped_count(ctx, it, nterm):
+    """a count used against an iterator with a known number of remaining items: any value >= that number acts like it"""
+    n = conc(nterm)
+    rem = None
+    cur = it
+    for _ in range(6):
+        if isinstance(cur, ListIter):
+            rem = len(cur.remaining()); break
+        if isinstance(cur, SkipIter) and isinstance(cur.inner, ListIter):
+            rem = max(0, len(cur.inner.remaining()) - cur.n); break
+        cur = getattr(cur, 'inner', None)
+        if cur is None:
+            break
+    if n is not None:
+        return min(n, rem) if rem is not None else n
+    if rem is None:
+        return ctx.concretize(nterm, range(0, 9))
+    if ctx.decide(UGE(nterm, BitVecVal(rem, nterm.size()))):
+        return rem
+    return ctx.concretize(nterm, range(0, rem))
+
+
 @model(r'^<.* as Iterator>::take$')
 def m_iter_take(ctx, args, callee):
-    n = conc(args[1])
-    if n is None:
-        n = ctx.concretize(args[1], range(0, 9))
-    return TakeIter(_it(ctx, args[0]), n)
+    it = _it(ctx, args[0])
+    return TakeIter(it, _clamped_count(ctx, it, args[1]))
 
 
 @model(r'^<.* as Iterator>::skip$')
 def m_iter_skip(ctx, args, callee):
-    n = conc(args[1])
-    if n is None:
-        n = ctx.concretize(args[1], range(0, 9))
-    return SkipIter(_it(ctx, args[0]), n)
+    it = _it(ctx, args[0])
+    return SkipIter(it, _clamped_count(ctx, it, args[1]))
 
 
 def drain(ctx, it):
@@ -2270,11 +2288,13 @@ def m_range_contains(ctx, args, callee):
 
 
 # --- floats
-@model(r'^(std::)?f64::<impl f64>::powi$|^f64::powi$|^core::f64::<impl f64>::powi$')
+@model(r'^((std|core)::)?f64::<impl f64>::powi$|^f64::powi$')
 def m_powi(ctx, args, callee):
     x = args[0]; n = sconc(args[1])
     if n is None or n < 0 or n > 4:
-        raise Unmodelled('powi with exponent %r' % (n,))
+        # a symbolic / large exponent: an uninterpreted function of (base, exponent)
+        f = _FUF.setdefault(('powi', 'i32'), z3.Function('f64_powi', z3.Float64(), z3.BitVecSort(32), z3.Float64()))
+        return f(x, args[1])
     r = z3.FPVal(1.0, z3.Float64())
     if n >= 1:
         r = x
@@ -2283,14 +2303,38 @@ def m_powi(ctx, args, callee):
     return r
 
 
-@model(r'^(std::)?f64::<impl f64>::sqrt$|^f64::sqrt$')
+@model(r'^((std|core)::)?f64::<impl f64>::sqrt$|^f64::sqrt$')
 def m_sqrt(ctx, args, callee):
     return z3.fpSqrt(z3.RNE(), args[0])
 
 
-@model(r'^(std::)?f64::<impl f64>::abs$|^f64::abs$')
+@model(r'^((std|core)::)?f64::<impl f64>::abs$|^f64::abs$')
 def m_fabs(ctx, args, callee):
     return z3.fpAbs(args[0])
+
+
+_FUF = {}
+
+
+def float_uf(name, arity):
+    key = (name, arity)
+    if key not in _FUF:
+        _FUF[key] = z3.Function('f64_' + name, *([z3.Float64()] * (arity + 1)))
+    return _FUF[key]
+
+
+@model(r'^((std|core)::)?f64::<impl f64>::(powf|ln|exp|log|log10|log2)$', 'f64 library function (uninterpreted)')
+def m_float_lib(ctx, args, callee):
+    name = callee.rsplit('::', 1)[1]
+    return float_uf(name, len(args))(*args)
+
+
+@model(r'^((std|core)::)?f64::<impl f64>::(min|max)$', 'f64::min/max')
+def m_float_minmax(ctx, args, callee):
+    a, b = args
+    if callee.endswith('min'):
+        return If(z3.fpLT(a, b), a, If(z3.fpIsNaN(a), b, If(z3.fpIsNaN(b), a, If(z3.fpLT(b, a), b, a))))
+    return If(z3.fpGT(a, b), a, If(z3.fpIsNaN(a), b, If(z3.fpIsNaN(b), a, If(z3.fpGT(b, a), b, a))))
 
 
 # --- chars
@@ -2350,13 +2394,33 @@ def m_wrapping(ctx, args, callee):
     return a * b
 
 
-@model(r'^(core::num::)?<impl \w+>::(saturating_sub)$')
-def m_sat_sub(ctx, args, callee):
-    a, b = args
+@model(r'^(core::num::)?<impl \w+>::(saturating_sub|saturating_add|saturating_abs)$')
+def m_saturating(ctx, args, callee):
     ty = re.search(r'<impl (\w+)>', callee).group(1)
-    if ty in SIGNED:
-        raise Unmodelled('signed saturating_sub')
-    return If(ULT(a, b), BitVecVal(0, a.size()), a - b)
+    w = INT_W[ty]; sg = ty in SIGNED
+    a = args[0]
+    lo = BitVecVal(-(1 << (w - 1)) if sg else 0, w); hi = BitVecVal(((1 << (w - 1)) - 1) if sg else ((1 << w) - 1), w)
+    if callee.endswith('saturating_abs'):
+        return If(a == lo, hi, If(a < 0, -a, a))
+    b = args[1]
+    if callee.endswith('saturating_sub'):
+        if not sg:
+            return If(ULT(a, b), BitVecVal(0, w), a - b)
+        r = a - b
+        ovf_pos = And(a >= 0, b < 0, r < 0)        # positive overflow
+        ovf_neg = And(a < 0, b >= 0, r >= 0)
+        return If(ovf_pos, hi, If(ovf_neg, lo, r))
+    r = a + b
+    if not sg:
+        return If(ULT(r, a), hi, r)
+    ovf_pos = And(a >= 0, b >= 0, r < 0)
+    ovf_neg = And(a < 0, b < 0, r >= 0)
+    return If(ovf_pos, hi, If(ovf_neg, lo, r))
+
+
+@model(r'^<&?bool as Not>::not$')
+def m_bool_not(ctx, args, callee):
+    return Not(ctx.deref(args[0]))
 
 
 @model(r'^(core::num::)?<impl \w+>::(checked_sub|checked_add)$')
